@@ -5,41 +5,6 @@ From Fibre Require Import Common.Base Common.Conc Chan.TicketK3 Proofs.TicketK3B
   Proofs.TicketK3Prod Proofs.TicketK3Cons.
 From Coq Require Import ZifyBool ZifyNat ZifyN Arith.
 
-Section Safety.
-Variables cap cc n kk : N.
-Variable np : nat.
-Hypothesis Hcc : 0 < cc.
-Hypothesis Hn : 0 < n.
-
-Lemma SInv_init pp0 cp0 : SInv cap cc n (init np pp0 cp0).
-Proof.
-  constructor; cbn [init gtail progress drained retired ids sstate sdata hcid hidx hpos tk ppc cpc pseq bad]; try lia.
-  - intros t. split; [lia | reflexivity].
-  - intros t th. cbn [own_of]. split; discriminate.
-  - intros th. exact Logic.I.
-  - intros t v H. discriminate H.
-  - intros j Hj. apply N.mod_small. exact Hj.
-  - intros j i Hj Hi. cbv zeta. destruct (N.ltb_spec (j * cc + i) 0) as [L|_]; [lia|]. split; reflexivity.
-  - intros t _ H. exfalso. apply H. reflexivity.
-  - exact Logic.I.
-Qed.
-
-Lemma SInv_step s t c s' e :
-  SInv cap cc n s -> step cap cc n kk np s t c = Some (s', e) -> SInv cap cc n s'.
-Proof.
-  intros I Hs. destruct t as [|i]; cbn [step] in Hs.
-  - eapply SInv_cstep; eassumption.
-  - destruct (Nat.ltb i np); [|discriminate Hs]. eapply SInv_pstep; eassumption.
-Qed.
-
-Theorem SInv_reachable pp0 cp0 s :
-  reachable (sys cap cc n kk np pp0 cp0) s -> SInv cap cc n s.
-Proof.
-  apply (invariant_lift (sys cap cc n kk np pp0 cp0) (SInv cap cc n)).
-  - apply SInv_init.
-  - intros s0 t c s' e. apply SInv_step.
-Qed.
-
 (* ------------------------------------------------------------ lists over ticket ranges *)
 Lemma nrange_app a k1 k2 : nrange a (k1 + k2) = nrange a k1 ++ nrange (a + N.of_nat k1) k2.
 Proof.
@@ -85,6 +50,41 @@ Proof.
   - intros [t [Ht Hv]]. apply in_nrange in Ht. exists t. split; [lia|].
     destruct (tk s t); cbn [tk_val In] in Hv; try contradiction. destruct Hv as [->|[]]. reflexivity.
   - intros [t [Ht Hv]]. exists t. split; [apply in_nrange; lia|]. rewrite Hv. left. reflexivity.
+Qed.
+
+Section Safety.
+Variables cap cc n kk : N.
+Variable np : nat.
+Hypothesis Hcc : 0 < cc.
+Hypothesis Hn : 0 < n.
+
+Lemma SInv_init pp0 cp0 : SInv cap cc n (init np pp0 cp0).
+Proof.
+  constructor; cbn [init gtail progress drained retired ids sstate sdata hcid hidx hpos tk ppc cpc pseq bad]; try lia.
+  - intros t. split; [lia | reflexivity].
+  - intros t th. cbn [own_of]. split; discriminate.
+  - intros th. exact Logic.I.
+  - intros t v H. discriminate H.
+  - intros j Hj. apply N.mod_small. exact Hj.
+  - intros j i Hj Hi. cbv zeta. destruct (N.ltb_spec (j * cc + i) 0) as [L|_]; [lia|]. split; reflexivity.
+  - intros t _ H. exfalso. apply H. reflexivity.
+  - exact Logic.I.
+Qed.
+
+Lemma SInv_step s t c s' e :
+  SInv cap cc n s -> step cap cc n kk np s t c = Some (s', e) -> SInv cap cc n s'.
+Proof.
+  intros I Hs. destruct t as [|i]; cbn [step] in Hs.
+  - eapply SInv_cstep; eassumption.
+  - destruct (Nat.ltb i np); [|discriminate Hs]. eapply SInv_pstep; eassumption.
+Qed.
+
+Theorem SInv_reachable pp0 cp0 s :
+  reachable (sys cap cc n kk np pp0 cp0) s -> SInv cap cc n s.
+Proof.
+  apply (invariant_lift (sys cap cc n kk np pp0 cp0) (SInv cap cc n)).
+  - apply SInv_init.
+  - intros s0 t c s' e. apply SInv_step.
 Qed.
 
 (* ------------------------------------------------------------ C03 *)
